@@ -1,2 +1,3 @@
 pub mod headermap;
 pub mod payload;
+pub mod h1;
